@@ -22,8 +22,11 @@ def guarded(prop, case, ctx):
     """run one case; an exception that escapes from library code is an
     observation about the library (violation 'raises'), one from the harness is
     inconclusive"""
+    from .attach import StepBudget
     try:
         r = prop.run_case(case, ctx)
+    except StepBudget as e:
+        r = {"st": "skip", "sig": "step-budget", "msg": str(e)}
     except Exception as e:  # noqa
         fr = _repo_frame(e.__traceback__)
         tbs = traceback.format_exc()[-1800:]
